@@ -753,6 +753,28 @@ fn resolve(tctx: &TypeCheckContext, chk: &TypeCheck) -> Result<Rc<TypeCheckRep>,
     }
 }
 
+/* The object denoted by a reference: chains of references are followed.
+ * A reference to an undefined object, or a chain of references that
+ * never reaches an object (a cycle), denotes the null object. */
+fn lookup_value<'a>(
+    ctxt: &'a PDFObjContext, refnc: &ReferenceT,
+) -> Option<&'a Rc<LocatedVal<PDFObjT>>> {
+    let mut seen = BTreeSet::new();
+    let mut id = refnc.id();
+    loop {
+        if !seen.insert(id) {
+            return None
+        }
+        match ctxt.lookup_obj(id) {
+            None => return None,
+            Some(obj) => match obj.val() {
+                PDFObjT::Reference(r) => id = r.id(),
+                _ => return Some(obj),
+            },
+        }
+    }
+}
+
 /* checks a parsed PDF object against its expected type */
 pub fn check_type(
     ctxt: &PDFObjContext, tctx: &TypeCheckContext, obj: Rc<LocatedVal<PDFObjT>>, chk: Rc<TypeCheck>,
@@ -832,7 +854,7 @@ pub fn check_type(
             (PDFObjT::Reference(refnc), _, IndirectSpec::Allowed)
             | (PDFObjT::Reference(refnc), _, IndirectSpec::Required) => {
                 // lookup referenced object and add it to the queue
-                match ctxt.lookup_obj(refnc.id()) {
+                match lookup_value(ctxt, refnc) {
                     Some(obj) => {
                         // Remove any Required indirect from the check.
                         let chk = Rc::new(TypeCheck::Rep(c.allow_indirect()));
